@@ -117,7 +117,9 @@ def mutate(fs, rng, nops, hostile=0.15, ops=None, disks=None, maxblocks=5):
                 sec, ns = divmod(e[2], 10**9)
                 for _ in range(8):
                     ns2 = rng.randint(1, 999_999_999) if (ns == 0 or rng.random() < 0.5) else 0
-                    if ns2 != ns and fs.lookup(d, sub, len(e[1]), sec, ns2) is None:
+                    # never recreate the (size, time-stamp) of ANY version ever written anywhere: with the same name on another
+                    # disk that would be a decoy for copy detection (C19's business, and subject to finding F24)
+                    if ns2 != ns and not any(k[2] == len(e[1]) and k[3] == sec and k[4] == ns2 for k in fs.store):
                         break
                 else:
                     continue
@@ -409,14 +411,15 @@ def damage_data_disk(arr, fs, rng, d, how, state):
                 did = True
             except OSError:
                 pass
-    elif how == "flip":
+    elif how in ("flip", "flip-newtime"):
+        # "flip-newtime": corrupted in place and the time-stamp moved too (the damaged file no longer looks like itself)
         for s, e in rng.sample(files, rng.randint(1, len(files))):
             if len(e[1]) == 0:
                 continue
             try:
                 for _ in range(rng.randint(1, 3)):
                     o = rng.randrange(len(e[1]))
-                    did |= flip_bytes(fs.path(d, s), rng, o, rng.randint(1, 64), True, rng.choice(["bit", "byte", "block", "zero"]))
+                    did |= flip_bytes(fs.path(d, s), rng, o, rng.randint(1, 64), how == "flip", rng.choice(["bit", "byte", "block", "zero"]))
             except OSError:
                 pass
     elif how == "rmlinks":
